@@ -296,6 +296,57 @@ impl SrtlaRegistrationManager {
     }
 }
 
+/// Verification hooks (feature `verif-hooks`, OFF by default): let the external
+/// harness crates put the handshake state machine into an arbitrary state and
+/// observe it. Add-only; nothing here is compiled in a normal build.
+#[cfg(feature = "verif-hooks")]
+#[derive(Clone, Copy, Debug, PartialEq, Eq)]
+pub struct VhRegState {
+    pub pending_reg2_idx: Option<usize>,
+    pub pending_timeout_at_ms: u64,
+    pub active_connections: usize,
+    pub broadcast_reg2_pending: bool,
+    pub reg1_target_idx: Option<usize>,
+    pub reg1_next_send_at_ms: u64,
+    /// 0 = NotStarted, 1 = Probing, 2 = WaitingForProbes, 3 = Complete
+    pub probing_state: u8,
+}
+
+#[cfg(feature = "verif-hooks")]
+impl SrtlaRegistrationManager {
+    pub fn vh_state(&self) -> VhRegState {
+        VhRegState {
+            pending_reg2_idx: self.pending_reg2_idx,
+            pending_timeout_at_ms: self.pending_timeout_at_ms,
+            active_connections: self.active_connections,
+            broadcast_reg2_pending: self.broadcast_reg2_pending,
+            reg1_target_idx: self.reg1_target_idx,
+            reg1_next_send_at_ms: self.reg1_next_send_at_ms,
+            probing_state: match self.probing_state {
+                ProbingState::NotStarted => 0,
+                ProbingState::Probing => 1,
+                ProbingState::WaitingForProbes => 2,
+                ProbingState::Complete => 3,
+            },
+        }
+    }
+
+    pub fn vh_set_state(&mut self, s: VhRegState) {
+        self.pending_reg2_idx = s.pending_reg2_idx;
+        self.pending_timeout_at_ms = s.pending_timeout_at_ms;
+        self.active_connections = s.active_connections;
+        self.broadcast_reg2_pending = s.broadcast_reg2_pending;
+        self.reg1_target_idx = s.reg1_target_idx;
+        self.reg1_next_send_at_ms = s.reg1_next_send_at_ms;
+        self.probing_state = match s.probing_state {
+            0 => ProbingState::NotStarted,
+            1 => ProbingState::Probing,
+            2 => ProbingState::WaitingForProbes,
+            _ => ProbingState::Complete,
+        };
+    }
+}
+
 // Test-only accessor methods for controlled field access. Gated on
 // `test-internals` (not just `test`) so the parent srtla_send crate can reach
 // them from its own cross-crate registration tests.
